@@ -8,7 +8,7 @@
 cd "$(dirname "$0")/.."
 pat="${1:-}"
 out=build/sensitivity.txt
-: > "$out"
+[ -n "$SENS_APPEND" ] || : > "$out"
 if [ -n "$(git -C /repo status --porcelain --untracked-files=no)" ]; then echo "/repo has local changes; refusing"; exit 2; fi
 for f in mutants/*.patch seeded/*/patch.diff; do
   [ -f "$f" ] || continue
